@@ -50,8 +50,8 @@ func VerifC16_History() { c16Run(false, c16Steps()) }
 func VerifC16_FromCreated() { c16Run(true, c16Steps()) }
 
 func c16Run(precreate bool, L int) {
-	ctx, _ := models.NewContext(10)
-	bank := models.NewBank()
+	ctx, ms := models.NewContext(10)
+	bank := models.NewBank(ms)
 	cdc := models.Codec(func(r codectypes.InterfaceRegistry) { types.RegisterInterfaces(r) })
 	k := NewKeeper(storetypes.NewKVStoreKey(types.StoreKey), models.Subspace(cdc, types.ModuleName), nil, bank, c16Pool{}, "authority")
 	k.SetParams(ctx, types.Params{})
